@@ -103,7 +103,7 @@ THOROUGH_LOG = """| property | thorough tier, seed 1 (background runs on this ma
 | C14 | F: 800 000 sentences, 274 523 distinct non-trivial, 1376 s |
 | C15 | R7: 10 719 860 cases (8 M atheris executions), 7 209 205 distinct non-trivial, 2597 s under load |
 | C16 | F: 481 608 cases, 432 883 distinct non-trivial, 433 s |
-| C17 | earlier: 3 360 000 cases (2.4 M atheris executions), 826 182 distinct non-trivial, 685 s |
+| C17 | F: 3 360 000 cases (2.4 M atheris executions), 834 223 distinct non-trivial, 965 s |
 | C18 | earlier: 662 089 families, 355 770 distinct non-trivial, 4378 s - found defect 19 (two buckets, one root cause), see section 3; re-run after the repair: exit 0 |
 | C19 | F: 241 352 cases, 171 643 distinct non-trivial, 400 s |"""
 
